@@ -1527,6 +1527,14 @@ class TensorDict(TensorDictBase):
 
     @cache  # noqa: B019
     def _remove_batch_dim(self, vmap_level, batch_size, out_dim):
+        if out_dim < 0:
+            # a negative out_dim is relative to the output, which has one more batch
+            # dimension than self (leaves would wrap it against their own rank)
+            out_dim = out_dim + self.batch_dims + 1
+        if not 0 <= out_dim <= self.batch_dims:
+            raise IndexError(
+                f"out_dim out of range for a tensordict output with {self.batch_dims} batch dimensions."
+            )
         new_batch_size = list(self.batch_size)
         new_batch_size.insert(out_dim, batch_size)
         names = self._maybe_names()
@@ -1554,6 +1562,12 @@ class TensorDict(TensorDictBase):
 
     @cache  # noqa: B019
     def _maybe_remove_batch_dim(self, funcname, vmap_level, batch_size, out_dim):
+        if out_dim < 0:
+            out_dim = out_dim + self.batch_dims + 1
+        if not 0 <= out_dim <= self.batch_dims:
+            raise IndexError(
+                f"out_dim out of range for a tensordict output with {self.batch_dims} batch dimensions."
+            )
         new_batch_size = list(self.batch_size)
         new_batch_size.insert(out_dim, batch_size)
         names = self._maybe_names()
